@@ -85,8 +85,9 @@ class Context(dict):
         its initialization argument *d*
         has no effect on the produced values.
         """
-        data, context = value
-        # data, context = lena.flow.get_data_context(value)
+        # imported here, because lena.flow itself imports lena.context
+        from lena.flow import get_data_context
+        data, context = get_data_context(value)
         return (data, Context(context))
 
     def __getattr__(self, name):
